@@ -297,6 +297,29 @@ def run(ctx):
                                                           {"kind": "oracle", "case": describe(frac), "input": x.tolist().__repr__(),
                                                            "observed": y.tolist().__repr__(), "expected": ref.tolist().__repr__(),
                                                            "sequence": "float32 coords, int64 coords, then float64 coords"}))
+    # integer-typed coordinate arrays (grid positions handed over as int32 / int64) with fractional widths / parameters: the documented
+    # kernel sum at those positions, exactly as with the same values stored as floats (defect F25 truncated width / param to integers)
+    for k, c in enumerate(cases):
+        if k % 4 != 2:
+            continue
+        frac = dict(c)
+        frac["width"] = [2.6, 1.7, 3.3][: len(c["grid"])] if not np.isscalar(c["width"]) else 2.5
+        frac["param"] = ([5.1, 2.34, 7.7][: len(c["grid"])] if not np.isscalar(c["param"]) else 2.34) if c["kernel"] == "kaiser_bessel" else c["param"]
+        idt = [np.int64, np.int32][k % 8 // 4]
+        frac["coord"] = np.rint(np.asarray(c["coord"], dtype=float)).astype(idt)
+        try:
+            x, y, ref, _ = run_case(sp, _random.Random(k), frac)
+        except Exception as e:
+            bad.setdefault("exception-intcoord:" + c["op"], ("%s raised %r with integer-typed coordinates" % (c["op"], e),
+                                                            {"kind": "impl-exception", "case": describe(frac)}))
+            continue
+        ctx.count("intcoord:%s:%s" % (c["op"], np.dtype(idt).name), key=json.dumps(describe(frac), sort_keys=True) + "I", nontrivial=bool(np.any(y != 0)))
+        tol = 1e-9 if c["kernel"] == "spline" else 3e-6
+        if y.shape != ref.shape or not np.allclose(y, ref, rtol=tol, atol=tol * (1 + np.abs(ref).max())):
+            bad.setdefault("oracle-intcoord:" + c["op"], ("%s with %s coordinates and fractional width / param differs from the documented kernel sum at those positions"
+                                                          % (c["op"], np.dtype(idt).name),
+                                                          {"kind": "oracle", "case": describe(frac), "input": x.tolist().__repr__(),
+                                                           "observed": y.tolist().__repr__(), "expected": ref.tolist().__repr__()}))
     failing, corr_ok = [], True
     try:
         if tr_err or not ctx.make(["run/RunC07.vo"]):
